@@ -292,11 +292,14 @@ def run(ctx):
     ctx.rule("R2.sanitiser", "clamp_p_value: !is_finite -> constant 1.0; else f64::clamp(p, 1e-15, 1.0)", floor=2)
     ctx.rule("R3.switch-over-agreement", "exact_mw_feasible receives the two complementary side sizes at every call site", floor=3, shape_dependent=True)
 
+    ctx.rule("R7.float-order-is-numeric", "every sort of measured values (slices whose elements contain f64) orders them numerically: the comparator is f64::total_cmp / partial_cmp on the values, never a key made of the bit pattern (to_bits orders negative numbers backwards and after the positive ones) - ranks, medians, tie groups and the step-up order all depend on it", floor=3)
+    ctx.rule("R8.tie-term-always-applied", "the tie correction handed to the normal approximation is the unconditional result of mann_whitney_tie_term for the ranked data (or the scorer's stored copy of it): no shortcut decides from the ranks that 'there are no ties'", floor=2)
     ctx.rule("R5.median-needs-total-order", "median_in_place reads its (one or two) middle positions from a totally sorted slice", floor=1)
     ctx.rule("R6.step-up-scans-every-rank", "benjamini_hochberg: sort, then one scan over every ordered p-value keeps the largest passing rank; no return before the scan", floor=1)
     ctx.rule("R4.memo-independent-of-call-arguments", "a lazily filled cache (Option::get_or_insert_with / OnceCell::get_or_init on a field of self) is computed from self's state only, never from the arguments of the call that happens to fill it", floor=1)
     memo_rule(ctx, prog)
     order_statistic_rules(ctx, prog)
+    float_order_and_tie_rules(ctx, prog)
 
     R = Ranges(prog)
     ctx.extra["unknown_calls_in_range_analysis"] = sorted(set(R.unknown))[:20]
@@ -379,6 +382,59 @@ def run(ctx):
         ctx.ob("R3.switch-over-agreement", f"{b.key.replace('cbh_stats::', '')}#{n}", complementary, b.loc(t["span"]),
                f"arguments: first from fields {sorted(f0) or '-'}, second from fields {sorted(f1) or '-'} via {sorted(k1) or '-'}; "
                f"second = (total - first), the sibling field n2, or the same half: {complementary}")
+
+
+def float_order_and_tie_rules(ctx, prog):
+    SORTS = ("sort_by", "sort_unstable_by", "sort_by_key", "sort_unstable_by_key", "sort_by_cached_key", "select_nth_unstable_by", "select_nth_unstable_by_key",
+             "binary_search_by", "max_by", "min_by")
+    n = 0
+    for b in prog.bodies:
+        if "::tests" in b.key or b.crate != "cbh_stats":
+            continue
+        for bb, t in b.calls():
+            c = t["callee"]
+            if c.get("method") not in SORTS or b.blocks[bb].cleanup:
+                continue
+            full = c.get("full", "")
+            head = full.split("::" + c["method"])[0]
+            if "f64" not in head and "f32" not in head:
+                continue
+            n += 1
+            ctx.fn(b)
+            names, bits = set(), False
+            for ta in c.get("targs", []):
+                for ck in ta.get("closures", []):
+                    cb = (prog.by_key.get(strip_generics(ck)) or [None])[0]
+                    if cb is not None:
+                        for _b2, t2 in cb.calls():
+                            names.add(t2["callee"].get("method"))
+                for fd in ta.get("fndefs", []):
+                    names.add(strip_generics(fd).split("::")[-1])
+            for a in t["args"]:
+                if a.get("k") == "const" and a.get("fndef"):
+                    names.add(strip_generics(a["fndef"]).split("::")[-1])
+            bits = bool(names & {"to_bits", "to_ne_bits", "to_le_bytes", "to_be_bytes", "to_ne_bytes", "transmute"})
+            numeric = bool(names & {"total_cmp", "partial_cmp"})
+            ok = numeric and not bits
+            ctx.ob("R7.float-order-is-numeric", f"{b.key.split('::')[-1]}.{c['method']}", ok, b.loc(t["span"]),
+                   f"comparator / key uses {sorted(x for x in names if x)}: numeric order {numeric}; bit-pattern key {bits}")
+    if n == 0:
+        ctx.missing("R7.float-order-is-numeric", "sorts over f64-valued slices in cbh_stats")
+    from ..analysis import who_calls
+    m = 0
+    for b, bb, t in who_calls(prog, "stats::normal_mann_whitney_p"):
+        if "::tests" in b.key or len(t["args"]) < 4:
+            continue
+        m += 1
+        sl = Slice(b, through_calls=False).run(t["args"][3])
+        calls = [k.split("::")[-1] for k, _b, _t in sl["calls"]]
+        flds = sorted(f.split("::")[-1] for f in sl["fields"])
+        ok = not sl["consts"] and (calls == ["mann_whitney_tie_term"] or (not calls and flds == ["tie_term"]))
+        ctx.ob("R8.tie-term-always-applied", b.key.split("::")[-2] + "::" + b.key.split("::")[-1], ok, b.loc(t["span"]),
+               f"tie term derives from calls {calls}, fields {flds}, constants {[c_.get('text') for c_ in sl['consts']]}" +
+               ("" if ok else " - a constant alternative means some tied data is approximated without the tie correction (tie groups of odd size leave every doubled rank even)"))
+    if m == 0:
+        ctx.missing("R8.tie-term-always-applied", "calls of stats::normal_mann_whitney_p")
 
 
 def order_statistic_rules(ctx, prog):
